@@ -1,12 +1,19 @@
 from excel2pycl.src.context import Context
 from excel2pycl.src.excel import Excel
+from excel2pycl.src.exceptions import E2PyclParserException
 from excel2pycl.src.tokens import IfsControlConstructionToken
 from excel2pycl.src.translators.abstract_translator import AbstractTranslator
-from excel2pycl.src.utilities.helper import get_flatten_list
 
 
 class IfsControlConstructionTokenTranslator(AbstractTranslator):
     @classmethod
     def translate(cls, token: IfsControlConstructionToken, excel: Excel, context: Context) -> str:
-        flatten_list = get_flatten_list(token, excel, context)
-        return context.set_sub_cell(token.in_cell, f'self._ifs({flatten_list})')
+        from excel2pycl.src.translators.expression_token_translator import ExpressionTokenTranslator
+
+        if len(token.expressions) % 2:
+            raise E2PyclParserException('IFS takes pairs of a condition and a value')
+
+        # every condition and value is wrapped in a lambda, _ifs evaluates only what Excel evaluates
+        conditions_and_values = ', '.join(
+            [f'lambda: {ExpressionTokenTranslator.translate(i, excel, context)}' for i in token.expressions])
+        return context.set_sub_cell(token.in_cell, f'self._ifs([{conditions_and_values}])')
